@@ -166,5 +166,26 @@ Definition shallow_outputs (q : raw_query) : bool := shallow_comp O (rq_comp q).
 Definition fold_free (q : raw_query) : bool :=
   match raw_folds (rq_comp q) with [] => true | _ => false end.
 
+(* ---------- C13: "the adapter returns schema-conforming values", schema-lite ----------
+   the schema as far as output typing needs it: vertex type -> property -> declared type *)
+Definition schema_lite := string -> string -> option ty.
+(* every property value the data source hands out is valid for the property's declared type *)
+Definition conforms (S : schema_lite) (g : graph) : Prop :=
+  forall T p t v, S T p = Some t -> ty_valid t (g_prop g T p v) = Ok true.
+(* every output's recorded field_type is the (well-formed) declared type of that property on the
+   output vertex' type (part of typed_ir; established by the frontend from the schema) *)
+Fixpoint outputs_typed (S : schema_lite) (c : raw_comp) {struct c} : Prop :=
+  match c with
+  | RComp _ vs _ fs outs =>
+      (forall n cf, In (n, cf) outs ->
+         wf_ty (cf_ty cf) = true /\
+         forall vtx, find_vertex vs (cf_vid cf) = Some vtx -> S (v_type vtx) (cf_name cf) = Some (cf_ty cf))
+      /\ (fix go (l : list raw_fold) : Prop :=
+            match l with
+            | [] => True
+            | RFold _ sub :: r => outputs_typed S sub /\ go r
+            end) fs
+  end.
+
 (* rendering for the run-time oracle *)
 Definition show_wf (q : raw_query) : string := if wf_ir q then "WF" else "NOT-WF".
